@@ -15,7 +15,7 @@ import (
 func init() {
 	register(Property{
 		ID:          "C20",
-		Explanation: "Decided statically: A5 every index/slice expression in the inflection function is bounded (length guard on the submatch slice; the irregular replacement is read through a comma-ok map lookup; non-emptiness of the matched word and of every replacement follows from the checked shape of the irregular pattern and of the constant rule tables, R3); R1 the rebuilt word is made of the match's own captures and the table value, never of a fixed offset of the whole input; R2 functions reachable from Pluralize/Singularize write no shared state except through sync.Map/sync.OnceValue, and the rule tables are only written by functions called (transitively) from init; determinism: no schedule-dependent order source in pkg/inflector. R3 pattern shape: two capture groups, first `.*`, a word boundary between them, second anchored at end of text, case-insensitive; every IrregularItem has a non-empty lower-case ASCII Word and a Replacement starting with the same letter. R4 the irregular attempt precedes the uninflected test (their word lists overlap, so the other order makes a word inflect differently on its own than behind a prefix); R3 also demands the dot-all flag, so a line break in the prefix is kept. R5 pass-through wrappers - every function between Pluralize/Singularize and the rule application returns its input, the next function's result or the cached thunk's result unchanged (no post-processing that looks at the whole input). R3 reads the irregular pattern as a template (Sprintf or concatenation); R6 every write into a rule's memo goes through the method's own receiver, is keyed by the method's own argument and stores the receiver's own computation on it; A5 accepts the result of slices.IndexFunc on the same unchanged base once -1 is excluded. R7 a rewriting rule anchored on a whole word is backed by an irregular entry for that word in the same rule set. R5 also: every wrapper hands its own parameter, unchanged, to the next function of the chain. NOT decided: linguistic correctness of the tables; that the irregular word is inflected exactly as on its own for every input (value level).",
+		Explanation: "Decided statically: A5 every index/slice expression in the inflection function is bounded (length guard on the submatch slice; the irregular replacement is read through a comma-ok map lookup; non-emptiness of the matched word and of every replacement follows from the checked shape of the irregular pattern and of the constant rule tables, R3); R1 the rebuilt word is made of the match's own captures and the table value, never of a fixed offset of the whole input; R2 functions reachable from Pluralize/Singularize write no shared state except through sync.Map/sync.OnceValue, and the rule tables are only written by functions called (transitively) from init; determinism: no schedule-dependent order source in pkg/inflector. R3 pattern shape: two capture groups, first `.*`, a word boundary between them, second anchored at end of text, case-insensitive; every IrregularItem has a non-empty lower-case ASCII Word and a Replacement starting with the same letter. R4 the irregular attempt precedes the uninflected test (their word lists overlap, so the other order makes a word inflect differently on its own than behind a prefix); R3 also demands the dot-all flag, so a line break in the prefix is kept. R5 pass-through wrappers - every function between Pluralize/Singularize and the rule application returns its input, the next function's result or the cached thunk's result unchanged (no post-processing that looks at the whole input). R3 reads the irregular pattern as a template (Sprintf or concatenation); R6 every write into a rule's memo goes through the method's own receiver, is keyed by the method's own argument and stores the receiver's own computation on it; A5 accepts the result of slices.IndexFunc on the same unchanged base once -1 is excluded. R7 a rewriting rule anchored on a whole word is backed by an irregular entry for that word in the same rule set. R5 also: every wrapper hands its own parameter, unchanged, to the next function of the chain. R6 also: the memoised computation never re-enters the method that fills the memo. NOT decided: linguistic correctness of the tables; that the irregular word is inflected exactly as on its own for every input (value level).",
 		Assumptions: append([]string{"*regexp.Regexp and sync.Map/sync.OnceValue are safe for concurrent use (documented)"}, commonAssumptions...),
 		Run:         runC20,
 	})
